@@ -1597,6 +1597,20 @@ def _mt_live_copy(ck, repo, nf):
     member duplicates the transitions stored so far into the other task (additions then do not go only to the selected task)."""
     cq = MT
     hits = 0
+    # attributes that hold the very object that is also a member: `self._prototype = replay_buffer` next to `self.buffers = [replay_buffer, ...]`
+    live_aliases = set()
+    init = repo.method(cq, "__init__")
+    if init is not None:
+        ifn = init[1]
+        in_members = set()
+        for st in ast.walk(ifn):
+            if isinstance(st, (ast.Assign, ast.AnnAssign)) and getattr(st, "value", None) is not None and any(dotted(t) == "self.buffers" for t in (st.targets if isinstance(st, ast.Assign) else [st.target])):
+                in_members |= {x.id for x in ast.walk(st.value) if isinstance(x, ast.Name) and not any(isinstance(c_, ast.Call) and x in ast.walk(c_) for c_ in ast.walk(st.value))}
+            if isinstance(st, ast.Call) and isinstance(st.func, ast.Attribute) and dotted(st.func.value) == "self.buffers" and st.func.attr in ("append", "insert") and st.args and isinstance(st.args[-1], ast.Name):
+                in_members.add(st.args[-1].id)
+        for st in ast.walk(ifn):
+            if isinstance(st, ast.Assign) and isinstance(st.value, ast.Name) and st.value.id in in_members:
+                live_aliases |= {dotted(t) for t in st.targets if isinstance(t, ast.Attribute) and dotted(t) != "self.buffers"}
     for c in repo.mro(cq):
         cn = repo.cls(c)
         for meth in cn.body:
@@ -1613,7 +1627,7 @@ def _mt_live_copy(ck, repo, nf):
                     v = st.args[-1]
                 if isinstance(v, ast.Call) and isinstance(v.func, (ast.Name, ast.Attribute)) and repo.resolve_expr(mi, v.func) in ("copy.deepcopy", "copy.copy") and len(v.args) >= 1:
                     src = v.args[0]
-                    if isinstance(src, ast.Subscript) and dotted(src.value) == "self.buffers":
+                    if (isinstance(src, ast.Subscript) and dotted(src.value) == "self.buffers") or (isinstance(src, ast.Attribute) and dotted(src) in live_aliases):
                         hits += 1
                         ck.ob("R5-task-routing", f"{cq}.{meth.name}", "member-from-live-buffer", False, short(st, 70),
                               "a task's buffer is created as a copy of a member that receives transitions: whatever that member holds at that moment is "
@@ -1890,6 +1904,7 @@ def _gs(body):
 
 _STRAT = "        priority = self.priority.priority[:current_len]\n        if mask is not None:\n            priority = priority * mask[:current_len]\n        probabilities = np.cumsum(priority)\n\n        # stratified sampling: divide [0, sum_probability] into batch_size segments\n        segment = probabilities[-1] / batch_size\n\n        # sample one uniform value per segment\n        random_points = rng.uniform(\n            low=np.arange(batch_size) * segment,\n            high=(np.arange(batch_size) + 1) * segment,\n            size=batch_size\n        )\n\n        self.priority.sampled_indices = np.searchsorted(\n            probabilities, random_points\n        )\n        return self.priority.sampled_indices\n"
 MUTANTS = [
+    {"id": "c02-mt-member-recreated-from-live-template", "file": _F, "rule": "R5", "edits": [('        self.buffers = [replay_buffer]\n        for _ in range(n_tasks - 1):\n            self.buffers.append(copy.deepcopy(replay_buffer))\n', '        self.buffers = [replay_buffer]\n        for _ in range(n_tasks - 1):\n            self.buffers.append(copy.deepcopy(replay_buffer))\n        self._template = replay_buffer\n'), ('        self.buffers[self.selected_task].add_sample(*args, **kwargs)\n        self.active_buffers.add(self.selected_task)\n', '        if self.selected_task not in self.active_buffers and self.selected_task > 0:\n            self.buffers[self.selected_task] = copy.deepcopy(self._template)\n        self.buffers[self.selected_task].add_sample(*args, **kwargs)\n        self.active_buffers.add(self.selected_task)\n')]},
     {"id": "c02-mt-lazy-member-from-live-buffer", "file": _F, "rule": "R5", "find": '        self.buffers[self.selected_task].add_sample(*args, **kwargs)\n        self.active_buffers.add(self.selected_task)\n', "replace": '        if len(self.buffers[self.selected_task]) == 0 and self.selected_task not in self.active_buffers:\n            self.buffers[self.selected_task] = copy.deepcopy(self.buffers[0])\n        self.buffers[self.selected_task].add_sample(*args, **kwargs)\n        self.active_buffers.add(self.selected_task)\n'},
     {"id": "c02-positional-batch-storage-rebuilt", "file": _F, "rule": "R2", "edits": [("        indices = rng.integers(0, self.current_len, batch_size)\n        return self.Batch(\n            **{k: jnp.asarray(self.buffer[k][indices]) for k in self.buffer}\n        )", "        indices = rng.integers(0, self.current_len, batch_size)\n        return self.Batch(\n            *(jnp.asarray(v[indices]) for v in self.buffer.values())\n        )"), ("        if self.current_len == 0:\n            for k, v in sample.items():\n                assert k in self.buffer, f\"{k} not in {self.buffer.keys()}\"\n                self.buffer[k] = np.empty(\n                    (self.buffer_size,) + np.asarray(v).shape,\n                    dtype=self.buffer[k].dtype,\n                )\n        for k, v in sample.items():\n            self.buffer[k][self.insert_idx] = v\n        self.insert_idx =", "        if self.current_len == 0:\n            storage = OrderedDict()\n            for k, v in sample.items():\n                storage[k] = np.empty(\n                    (self.buffer_size,) + np.asarray(v).shape,\n                    dtype=self.buffer[k].dtype,\n                )\n            self.buffer = storage\n        for k, v in sample.items():\n            self.buffer[k][self.insert_idx] = v\n        self.insert_idx =")]},
     {"id": "c02-integers-low-one", "file": _F, "rule": "R3", "find": "        indices = rng.integers(0, self.current_len, batch_size)", "replace": "        indices = rng.integers(1, self.current_len, batch_size)"},
@@ -1936,6 +1951,7 @@ MUTANTS = [
 ]
 _ALLOC = "        if self.current_len == 0:\n            for k, v in sample.items():\n                assert k in self.buffer, f\"{k} not in {self.buffer.keys()}\"\n                self.buffer[k] = np.empty(\n                    (self.buffer_size,) + np.asarray(v).shape,\n                    dtype=self.buffer[k].dtype,\n                )\n        for k, v in sample.items():\n            self.buffer[k][self.insert_idx] = v\n        self.insert_idx = (self.insert_idx + 1) % self.buffer_size\n        self.current_len = min(self.current_len + 1, self.buffer_size)\n\n    def sample_batch(\n        self, batch_size: int, rng: np.random.Generator\n    ) -> tuple[jnp.ndarray]:"
 BENIGN = [
+    {"id": "c02-b-mt-member-recreated-from-pristine-template", "file": _F, "edits": [('        self.buffers = [replay_buffer]\n        for _ in range(n_tasks - 1):\n            self.buffers.append(copy.deepcopy(replay_buffer))\n', '        self.buffers = [replay_buffer]\n        for _ in range(n_tasks - 1):\n            self.buffers.append(copy.deepcopy(replay_buffer))\n        self._template = copy.deepcopy(replay_buffer)\n'), ('        self.buffers[self.selected_task].add_sample(*args, **kwargs)\n        self.active_buffers.add(self.selected_task)\n', '        if self.selected_task not in self.active_buffers and self.selected_task > 0:\n            self.buffers[self.selected_task] = copy.deepcopy(self._template)\n        self.buffers[self.selected_task].add_sample(*args, **kwargs)\n        self.active_buffers.add(self.selected_task)\n')]},
     {"id": "c02-b-positional-batch", "file": _F, "find": "        indices = rng.integers(0, self.current_len, batch_size)\n        return self.Batch(\n            **{k: jnp.asarray(self.buffer[k][indices]) for k in self.buffer}\n        )", "replace": "        indices = rng.integers(0, self.current_len, batch_size)\n        return self.Batch(\n            *(jnp.asarray(v[indices]) for v in self.buffer.values())\n        )"},
     {"id": "c02-b-lap-init-after", "file": _F, "find": "        self.priority.initialize_priority(self.insert_idx)\n        super().add_sample(**sample)", "replace": "        slot = self.insert_idx\n        super().add_sample(**sample)\n        self.priority.initialize_priority(slot)"},
     {"id": "c02-b-integers-keywords", "file": _F, "find": "        indices = rng.integers(0, self.current_len, batch_size)", "replace": "        indices = rng.integers(low=0, high=len(self), size=batch_size)"},
